@@ -464,6 +464,7 @@ def run_property(modname, tier, seed, replay=None):
                 violation = r["violation"]
 
     extra_cov = {}
+    extra_eval = 0
     if violation is None and not harness_errors and hasattr(mod, "extra_phase"):
         try:
             ex = mod.extra_phase(tier, seed)
@@ -479,7 +480,8 @@ def run_property(modname, tier, seed, replay=None):
             ex = None
             harness_errors.append("".join(traceback.format_exception(type(e), e, e.__traceback__)))
         if ex:
-            total_eval += ex.get("evaluations", 0)
+            extra_eval = ex.get("evaluations", 0)
+            total_eval += extra_eval
             nontriv.update(ex.get("nontrivial", []))
             labels.update(ex.get("labels", {}))
             for s in ex.get("samples", []):
@@ -515,7 +517,7 @@ def run_property(modname, tier, seed, replay=None):
     # ---- vacuity guard
     floors = getattr(mod, "FLOORS", {})
     floor_fail = []
-    gen_eval = max(1, total_eval)
+    gen_eval = max(1, total_eval - extra_eval)     # floors are fractions of the generated / enumerated cases, not of an extra phase's runs
     if violation is None and not harness_errors:
         for lab, frac in floors.items():
             if labels.get(lab, 0) / gen_eval < frac:
